@@ -202,6 +202,8 @@ def install(eng):  # noqa: C901
     reg(filter, b_filter)
 
     def b_any(e, it):
+        if isinstance(it, sym.CharsIn):
+            return it.any()
         for x in e.iterate(it):
             if e.truth(x):
                 return True
@@ -210,6 +212,8 @@ def install(eng):  # noqa: C901
     reg(any, b_any)
 
     def b_all(e, it):
+        if isinstance(it, sym.CharsIn):
+            return it.all()
         for x in e.iterate(it):
             if not e.truth(x):
                 return False
